@@ -28,7 +28,7 @@ import re
 from common import LEAN, hx, setup_repo_import
 
 ID = "C02"
-GENS = ["c02_registry"]
+GENS = ["c02_registry", "c02_ctor"]
 PROOF = "Gallia.Proofs.C02"
 DRIVER = "c02"
 ORACLE = True
@@ -37,6 +37,14 @@ ASSUMPTIONS = [
     "exception classes raised by the parser are not distinguished: any exception from parse_dynamic is 'rejected'",
     "multi-identifier ReadDataByIdentifier answers are attributed to the first identifier (by design, bytes kept)",
     "DTC-and-status lists are exposed as a dict: a list with a repeated DTC has no lossless typed view (oracle rejects)",
+    "constructor side: 'constructed' = __init__ accepts AND .pdu can be computed (a value struct.pack / int.to_bytes refuses later puts "
+    "nothing on the wire and counts as refused); exception classes are not distinguished",
+    "constructor side, typed domain: enum parameters (UDSErrorCodes, DTCFormatIdentifier) range over the enum members, dict parameters "
+    "over real dicts (no repeated keys), parameters annotated `int` are never None, bytes parameters are bytes",
+    "constructor side: `exposed r = f` for canonical calls (construct_exposes) is not proved in Lean; it is compared on every generated "
+    "canonical call (object's own attributes vs the attributes parse_dynamic exposes for its PDU)",
+    "the range / width checks inside Model/UdsRespCtor.lean `construct` are literals tied to the code by the differential run on both "
+    "sides of every bound, not by a regenerated table (regenerated: parameter lists and annotations, convenience-class parameters)",
 ]
 
 # ---------------------------------------------------------------------------------------------------------
@@ -669,6 +677,11 @@ def run(ctx):
     ctx.traces_validated += len(con)
 
 
+    # 4b. the constructor side against Model/UdsRespCtor.lean `construct`: valid, boundary and invalid field values on every
+    #     registry class and the InputOutputControlByIdentifier convenience classes; accepted / rejected, the PDU, and the
+    #     fields the real parser exposes for that PDU
+    _ctor_check(ctx, rows)
+
     # 5. the class-level entry point <Response>.from_pdu(b) of every concrete response class (registry classes and the
     #    convenience subclasses that parse_dynamic never returns)
     import inspect
@@ -762,6 +775,101 @@ def run(ctx):
     _stored_check(ctx, pool)
 
 
+def _ctor_eval(cls, args, canon):
+    """-> 'none' | (pdu hex, view of the object's own attributes, view of parse_dynamic(pdu))"""
+    S = _svc()
+    try:
+        o = cls(*args)
+        p = o.pdu
+    except Exception:  # noqa: BLE001
+        return "none"
+    if not isinstance(p, (bytes, bytearray)):
+        return (f"!{type(p).__name__}", "", "reject")
+    own = view_obj(o) if canon else ""
+    try:
+        back = view_obj(S.UDSResponse.parse_dynamic(bytes(p)))
+    except Exception:  # noqa: BLE001
+        back = "reject"
+    return (hx(bytes(p)), own, back)
+
+
+def _ctor_classify(name, target, fam, canon, iv, m):
+    """None, or (category, spec_violated, text).  `target` = the class parse_dynamic must give the PDU back as."""
+    if iv == "none":
+        if m == "none":
+            return None
+        return (f"ctor:{fam}:rejected-where-model-accepts", False, f"{name}(...) refuses field values whose PDU {m.split('pdu=')[-1]} the oracle builds and parses")
+    p, own, back = iv
+    bv, bcls, bfl, bpdu = _parse_view(back)
+    if bv != "ok":
+        return (f"ctor:{fam}:own-parser-{'rejects' if bv == 'reject' else 'keeps-raw'}", True,
+                f"{name}(...) is accepted and serialises to {p}, which gallia's own parser {'rejects' if bv == 'reject' else 'keeps as a raw response'}")
+    if bcls != target:
+        return (f"ctor:{fam}:parsed-as-{bcls}", True, f"{name}(...).pdu = {p} is parsed back as {bcls}")
+    if bpdu != p:
+        return (f"ctor:{fam}:pdu-changes", True, f"{name}(...).pdu = {p} re-serialises as {bpdu} after parsing")
+    if canon and own and name == target:
+        ov = _parse_view(own)
+        if ov[2] != bfl:
+            k = next((k for k in bfl if ov[2].get(k) != bfl[k]), "?")
+            return (f"ctor:{fam}:field-changes:{k}", True, f"{name}(...) holds {k}={ov[2].get(k)} but its PDU {p} parses back with {k}={bfl.get(k)}")
+    if m == "none":
+        return (f"ctor:{fam}:accepted-where-model-none", False, f"{name}(...) accepts field values the model's constructor refuses (PDU {p} parses back unchanged)")
+    if m != back:
+        mv = _parse_view(m)
+        if mv[3] != p:
+            return (f"ctor:{fam}:layout", True, f"{name}(...).pdu = {p}, the ISO layout of these field values is {mv[3]}")
+        return (f"ctor:{fam}:view", False, f"{name}(...): parsed-back view {back} differs from the model's {m}")
+    return None
+
+
+def _ctor_check(ctx, rows):
+    from lib import c02ctor
+
+    S = _svc()
+    rng = ctx.rng
+    n_rand = ctx.pick(6, 40) * (3 if ctx.widened else 1)
+    cases = []   # (class name, target class, family, canonical, python args, driver line)
+    for row in rows:
+        cls = getattr(S, row[0])
+        for form, args, toks, canon in c02ctor.calls(rng, row, S, NRCS, DTCFMTS, n_rand):
+            cases.append((row[0], row[0], row[1], canon, cls, args, " ".join(["con", row[0], form] + toks)))
+    txt = (LEAN / "Gallia" / "Gen" / "C02Ctor.lean").read_text()
+    conv = re.findall(r'\("(\w+)", (\d+)\)', txt.split("def convClasses", 1)[1])
+    for cname, _param in conv:
+        cls = getattr(S, cname)
+        for did, states in c02ctor.conv_calls(rng, n_rand):
+            cases.append((cname, "InputOutputControlByIdentifierResponse", "InputOutputControlByIdentifierResponse/subclass", True, cls,
+                          (did, states), f"conv {cname} {did} {hx(states)}"))
+    model = ctx.lean([c[6] for c in cases])
+    found = {}
+    n_acc = 0
+    for (name, target, fam, canon, cls, args, line), m in zip(cases, model):
+        ctx.ev()
+        iv = _ctor_eval(cls, args, canon)
+        n_acc += iv != "none"
+        ctx.kind("ctor:" + ("accepted" if iv != "none" else "refused"))
+        if iv != "none":
+            ctx.nontrivial(line)
+        if m == "bad-op":
+            ctx.disagree(f"ctor:driver:{line.split(' ')[2]}", "the model driver cannot read a generated constructor call", {"call": line},
+                         impl=str(iv), model=m, spec_violated=False, site="Driver/C02.lean")
+            continue
+        r = _ctor_classify(name, target, fam, canon, iv, m)
+        if r:
+            best = found.get(r[0])
+            if best is None or (len(line), line) < (len(best[0]), best[0]):
+                found[r[0]] = (line, name, iv, m, r)
+    ctx.traces_validated += len(cases)
+    ctx.notes["ctor_calls"] = len(cases)
+    ctx.notes["ctor_calls_accepted"] = n_acc
+    ctx.exhaustive_parts.append(f"constructor calls: every int parameter of every response class at both sides of its width / range check, "
+                                f"every NRC, every DTC format ({len(cases)} calls, {n_acc} accepted)")
+    for cat, (line, name, iv, m, r) in found.items():
+        ctx.disagree(cat, f"{line[4:]}: {r[2]}", {"call": line, "class": name}, impl=("none" if iv == "none" else f"pdu={iv[0]} parsed-back: {iv[2]}"),
+                     model=m, spec_violated=r[1], site=f"{name}.__init__/.pdu")
+
+
 def _stored_check(ctx, pdus):
     import asyncio
     import sqlite3
@@ -823,6 +931,57 @@ def replay(ctx, case):
     load_rows()
     S = _svc()
     c = case.get("case", case)
+    if "call" in c:
+        from lib import c02ctor  # noqa: F401
+
+        line = c["call"]
+        m = ctx.lean([line])[0]
+        print("call   :", line)
+        print("model  :", m)
+        toks = line.split(" ")
+        cls = getattr(S, toks[1])
+
+        def tok(t):
+            if t == "none":
+                return None
+            if t in ("-", "e"):
+                return b""
+            return int(t)
+
+        def tb(t):
+            return b"" if t in ("-", "e") else bytes.fromhex(t)
+
+        BYTES_AT = {"dsc": 1, "secAccess": 1, "rmba": 0, "iocbi": 1, "routine": 1, "transferData": 1, "transferExit": 0, "dtcListB": 1}
+
+        try:
+            if toks[0] == "conv":
+                args = (int(toks[2]), tb(toks[3]))
+            else:
+                form, a = toks[2], toks[3:]
+                if form == "rdbi":
+                    args = ([int(x) for x in a[0].split(",")] if a[0] != "-" else [], [tb(x) for x in a[1].split(",")] if a[1] != "-" else [])
+                elif form == "dtcListD":
+                    args = (int(a[0]), {int(k): int(v) for k, v in (x.split(":") for x in a[1].split(","))} if a[1] != "-" else {})
+                elif form in ("dtcExtT", "dtcExtB"):
+                    d = {int(k): tb(v) for k, v in (x.split(":") for x in a[-1].split(","))} if a[-1] != "-" else {}
+                    args = ((int(a[0]), int(a[1])), d) if form == "dtcExtT" else (tb(a[0]), d)
+                elif form == "neg":
+                    from gallia.services.uds.core.constants import UDSErrorCodes
+                    args = (int(a[0]), UDSErrorCodes(int(a[1])))
+                elif form == "dtcCount":
+                    from gallia.services.uds.core.constants import DTCFormatIdentifier
+                    args = (int(a[0]), DTCFormatIdentifier(int(a[1])), int(a[2]))
+                else:
+                    args = tuple(tb(x) if BYTES_AT.get(form) == i else tok(x) for i, x in enumerate(a))
+            iv = _ctor_eval(cls, args, False)
+        except Exception as e:  # noqa: BLE001
+            iv = "none"
+            print("raised :", repr(e))
+        print("impl   :", iv if iv == "none" else f"pdu={iv[0]} parsed back by gallia: {iv[2]}")
+        bad = iv != "none" and (not iv[2].startswith("ok ") or _parse_view(iv[2])[3] != iv[0])
+        print("verdict:", "accepted by the constructor, but its own parser rejects / changes / keeps raw the PDU" if bad else
+              ("agree" if (iv == "none") == (m == "none") and (iv == "none" or iv[2] == m) else "model and code differ"))
+        return int(bad or not ((iv == "none") == (m == "none") and (iv == "none" or iv[2] == m)))
     if "pdu" not in c:
         print(case)
         return 0
@@ -858,10 +1017,19 @@ MANIFEST = {
                    "code by a correspondence run of the real UDSResponse.parse_dynamic / .pdu: valid responses of every "
                    "registry class from an independent ISO builder, all byte strings of length <= 3 per response id "
                    "(exhaustive in the thorough tier), mutated neighbours, constructed objects, and <Response>.from_pdu of every "
-                   "concrete response class."),
+                   "concrete response class. Constructor side (Model/UdsRespCtor.lean): `construct : class -> fields -> Option Resp` "
+                   "with the validity checks of every response class's __init__ / .pdu; proved for every class and every accepted "
+                   "field valuation: the PDU parses back as exactly the constructed object (construct_pdu_parses_back), it satisfies "
+                   "the class's length rule and sub-function gate and is never raw (construct_pdu_wf, construct_wf), equal bytes "
+                   "imply equal objects (construct_injective_partial); parameter lists / annotations and the convenience-class "
+                   "control parameters are regenerated from the live classes and proved equal to the model's. Tied by generated "
+                   "constructor calls on the live classes (valid, both sides of every range / width bound, negative, empty and "
+                   "wrong-length payloads, multi-identifier and multi-record forms): accepted / refused, PDU bytes, the attributes "
+                   "gallia's own parser exposes for that PDU, and the object's own attributes."),
     "level_note": ("Trusted: Lean kernel (axioms propext, Quot.sound, Classical.choice), the registry translator, the "
                    "harness; struct / int.to_bytes contracts. Exception classes are not distinguished (any exception = "
-                   "rejected)."),
+                   "rejected). Constructor side: enum / dict / int-not-None typed domain; `exposed r = f` is compared, not proved; the "
+                   "range literals of `construct` are tied differentially."),
     "technique": "Lean 4 proof (case analysis over parser families, big-endian lemmas) + regenerated registry tables + differential correspondence against the real parser",
     "design_ref": "DESIGN.md section 7, C02",
 }
